@@ -192,3 +192,20 @@ package floats
 //@ valid n >= 2
 //@ panics iff !valid, before-writes
 //@ writes nothing
+
+// Within: the documented result. The value clauses are stated for slices
+// without NaN (sort.Float64sAreSorted puts NaNs first, so "s[0] is not NaN"
+// says exactly that); for a NaN prefix the code returns an index whose left
+// neighbour is NaN, where "s[i] <= v" is false (documentation does not cover
+// NaN elements; recorded in DESIGN.md, not claimed).
+
+//@ func Within props: C07(safety) C08
+//@ floats: ieee
+//@ valid len(s) >= 2 && sortedFloats(s)
+//@ panics iff !valid, before-writes
+//@ writes nothing
+//@ ensures result == -1 || (0 <= result && result < len(s)-1)
+//@ ensures !isNaN(s[0]) && result >= 0 ==> s[result] <= v && v < s[result+1]
+//@ ensures !isNaN(s[0]) && result >= 0 ==> forall(k, 0, result, !(s[k] <= v && v < s[k+1]))
+//@ ensures !isNaN(s[0]) && result == -1 ==> forall(k, 0, len(s)-1, !(s[k] <= v && v < s[k+1]))
+//@ loop 1: invariant forall(k, 1, it+1, !(v < s[k]))
